@@ -78,7 +78,9 @@ var JSDeferredFields = map[string]string{
 // means something other than the literal X, or where the bare X is a syntax character:
 // SyntaxCharacter, '/', ControlEscape (f n r t v), CharacterClassEscape (d D s S w W p P),
 // assertions (b B), c x u k, DecimalEscape / \0.
-const RegexpMustKeepOutside = "^$\\.*+?()[]{}|/" + "fnrtv" + "dDsSwWpP" + "bB" + "cxuk" + "0123456789"
+// ',' is no syntax character, but between braces it separates the bounds of a quantifier: in Annex B `a{1\,2}` matches the text
+// `a{1,2}` (a `{` that does not start a quantifier is literal), without the backslash it is a quantifier.
+const RegexpMustKeepOutside = "^$\\.*+?()[]{}|/" + "," + "fnrtv" + "dDsSwWpP" + "bB" + "cxuk" + "0123456789"
 
 // Inside a class: ClassEscape (b, CharacterClassEscape, CharacterEscape) plus '\' and ']'.
 // '-' and '^' are positional and decided by code, not by the table.
